@@ -30,6 +30,15 @@ CLAIMED = {
  "C18": ("Coq proofs over struct tags (reflection) and main() wiring (go/ast) REGENERATED from the source: reflective conformance check against the documented key table + generic lemma 'conformance implies every call receives the file's value'; mode table for all argv; differential runs of GetConfiguration and of the process",
          "Theorems in coq/Properties/C18.v: the 24 yaml tags are exactly the documented keys on fields of the documented kind and every call site in both modes passes the documented field in the documented position (reflective over the data extracted from the current source); hence for ANY configuration file and every documented key, every call of every consuming procedure receives exactly the value in the file; the UE count and the five repetition counts bound the documented loops; mode = traffic iff no argument, test iff exactly -t, none otherwise, for every argv. Each run loads 200 random configuration files (keys in any order, leading zeros, extreme integers, absent keys) through the real GetConfiguration and checks end to end (file value = field main() passes to the consumer / loop bound); runs the real binary on every argv vector of length 0..2 (thorough: 0..3) over a 5-word alphabet; and runs 3 (12) random configurations against the reference AMF, which verifies gNB id/bit length/name, PLMN, SUCI, keys (RES*), GTP address and S-NSSAI on the wire.",
          "Coq kernel + vm_compute; translators gen-conftags (reflect) and gen-mainwiring (go/ast); documentation transcribed by hand from README.md/config.yaml; YAML scalar syntax is yaml.v2's (modelled, tied by the stream); Python reference AMF.", "DESIGN.md §7 C18"),
+ "C20": ("Coq proofs: reflective footprint conformance over data REGENERATED by a go/ssa translator + a generic interleaving theorem (induction over schedules) instantiated with C07's state-independence of the SNOW 3G sections; runtime: race-detector build and concurrent-vs-sequential stress",
+         "PARTIAL (Go memory model / scheduler not modelled). Theorems in coq/Properties/C20.v: no operation family (NGAP codec, NAS codec, key derivation, NAS ciphering, NAS MAC, NAS protect/unprotect) writes a package-level variable outside a lock-protected region, and lock-protected variables are never touched outside their lock (reflective over footprints extracted from the current source); for any number of threads, any sequences of critical sections whose result does not depend on the incoming shared state, and EVERY schedule, each thread ends with the results it gets alone; NEA1/NIA1/NASEncrypt/NASMacCalculate sections have that property (C07). Each run rebuilds the harness with -race and runs 6 families x 8 (thorough 64) goroutines, comparing with the sequential results and failing on any DATA RACE report.",
+         "Coq kernel + vm_compute; go/ssa translator (static call graph only); critical sections atomic by assumption; logrus treated as synchronised; race detector as runtime evidence.", "DESIGN.md §7 C20"),
+ "C06": ("Coq proofs (bit-level characterisation of the counter masks, induction over histories with fold_left, refinement to an independent reference sender/receiver) parametric in the cipher/MAC functions + differential correspondence on histories",
+         "Theorems in coq/Properties/C06.v for ALL uplink histories (plain message, header type 1..4, new-context flag): the model of NASEncode/EncodeNasPduWithSecurity produces exactly the octets of the TS 24.501 reference sender (Spec/RefNasPeer.v) — COUNT i-1 mod 2^24 for the i-th message since the context was taken into use, SQN = COUNT mod 256, MAC over SQN||body with BEARER 1 / DIRECTION 0, body ciphered iff header type is 2 or 4; the reference receiver accepts every message in order and recovers the plain octets; a new context resets both counters; without a context the message is unchanged. Each run drives the real EncodeNasPduWithSecurity over 50+40 histories (all NIA1/2 x NEA0/1/2 x header types, crossings 255->256, 65535->65536, 2^24-1->0, resets, malformed stream) and compares octets and both counters after every step with model and spec.",
+         "Coq kernel + vm_compute; cipher/MAC as Section variables in proofs (hypotheses: 4-octet MAC, involution — discharged by C07) and Model/Security.v when executed; hand model tied by differential execution on histories.", "DESIGN.md §7 C06"),
+ "C10": ("Coq proofs (COUNT estimate arithmetic for all stored values/SQNs, induction over downlink histories) parametric in cipher/MAC + differential correspondence with packets produced by the Coq reference sender",
+         "Theorems in coq/Properties/C10.v for ALL downlink histories (plain, header type 0..4, SQN advance 1..255, new-context flag): the UE's DLCount after each message equals the COUNT the AMF used, the octets handed to the plain decoder are the AMF's plain message, a new-context header resets the estimate. Each run feeds 50+60 histories produced by the Coq reference sender (re-computed inside cases.v) to the real NASDecode and compares recovered message and DLCount after every packet; truncated packets / unsupported ids in a malformed stream.",
+         "Coq kernel + vm_compute; cipher/MAC as Section variables (involution from C07); a MAC mismatch is only printed by the code (not required by the statement); NIA0 branch outside the claim.", "DESIGN.md §7 C10"),
 }
 PENDING_REASON = "check not built yet in this round (work in progress; see DESIGN.md §7 for the planned proof)"
 
